@@ -345,19 +345,19 @@ def parse_getheaders_payload(payload: bytes) -> dict:
         parsed_payload["hash_count"] = hash_count
         index = 7
     elif hash_count_byte == 254:
-        hash_count = int.from_bytes(payload[7:11], "little")
+        hash_count = int.from_bytes(payload[5:9], "little")
         parsed_payload["hash_count"] = hash_count
-        index = 11
+        index = 9
     elif hash_count_byte == 255:
-        hash_count = int.from_bytes(payload[11:19], "little")
+        hash_count = int.from_bytes(payload[5:13], "little")
         parsed_payload["hash_count"] = hash_count
-        index = 19
+        index = 13
 
     if hash_count > 0:
         block_header_hashes = payload[index : index + hash_count * 32]
         parsed_payload["block_header_hashes"] = [
             block_header_hashes[32 * i : 32 * (i + 1)].hex()
-            for i in range(1, 1 + len(block_header_hashes) // 32)
+            for i in range(len(block_header_hashes) // 32)
         ]
         parsed_payload["stop_hash"] = payload[
             index + hash_count * 32 : index + hash_count * 32 + 32
